@@ -187,6 +187,8 @@ func roundTrips() {
 		// fractions with many significant digits, very small ones: restored exactly
 		// text options whose value looks like a boolean or a number
 		{"f", "true"}, {"i", "false"}, {"h", "t"}, {"tf", "f"}, {"sf", "1"}, {"unit", "true"},
+		// regular expressions that begin or end with a blank (a blank is a character the expression matches)
+		{"f", "operator "}, {"i", " const$"}, {"h", " "}, {"sf", "a\tb\t"}, {"tf", " k:x"},
 		{"nf", "0.0001234567"}, {"ef", "0.12345678"}, {"nf", "1e-07"}, {"ef", "0.30000000000000004"}, {"nf", "0.1234567890123"}}
 	reset()
 	withServer(func(s *server) {
